@@ -118,6 +118,8 @@ pub enum Op {
     /// macro: a PoSt with an invalid proof (accepted optimistically), the deadline closes, a replica update (or an extension)
     /// changes the sectors of that deadline inside the dispute window, then the PoSt is disputed
     BadPostChangeDispute { m: u8, into: u8, picks: Vec<u16>, verified: bool, extend_instead: bool, rel: i16 },
+    /// ProveCommitSectorsNI (non-interactive PoRep): n sectors with the NI proof type of size `kind` (None = the miner's own size)
+    CommitNI { m: u8, n: u8, kind: Option<u8>, life_days: u16, deadline: u8, bad_proof: bool },
 }
 
 #[derive(Clone, Debug, Serialize, Deserialize)]
@@ -525,6 +527,47 @@ impl<'a> Sys<'a> {
                 if r.ok() {
                     self.stats.label("proven");
                     self.stats.label("bulk_onboarded");
+                }
+            }
+            Op::CommitNI { m, n: cnt, kind, life_days, deadline, bad_proof } => {
+                let mi_ = *m as usize % n;
+                let (id, worker, seal) = (self.miners[mi_].id, self.miners[mi_].worker, self.miners[mi_].seal);
+                let own_kind = match seal {
+                    RegisteredSealProof::StackedDRG2KiBV1P1 => 0u8,
+                    RegisteredSealProof::StackedDRG8MiBV1P1 => 1,
+                    _ => 2,
+                };
+                let k = kind.map(|k| k % 3).unwrap_or(own_kind);
+                let ni = match k {
+                    0 => RegisteredSealProof::StackedDRG2KiBV1P2_Feat_NiPoRep,
+                    1 => RegisteredSealProof::StackedDRG8MiBV1P2_Feat_NiPoRep,
+                    _ => RegisteredSealProof::StackedDRG32GiBV1P2_Feat_NiPoRep,
+                };
+                let mv = read_miner(&self.w.v, id);
+                let first = self.miners[mi_].next_sector;
+                let count = (*cnt % 3 + 1) as u64;
+                let expiration = epoch + self.policy().min_sector_expiration + (*life_days as i64 % 300) * PERIOD + 10;
+                let sectors: Vec<mi::SectorNIActivationInfo> = (first..first + count)
+                    .map(|num| mi::SectorNIActivationInfo { sealing_number: num, sealer_id: id, sealed_cid: make_sealed_cid(format!("ni{}-{}", id, num).as_bytes()), sector_number: num, seal_rand_epoch: epoch - 1, expiration })
+                    .collect();
+                let cur = ((epoch - mv.period_start).rem_euclid(PERIOD) / DEADLINE_EPOCHS) as u64;
+                let p = mi::ProveCommitSectorsNIParams {
+                    sectors,
+                    aggregate_proof: RawBytes::new(if *bad_proof { BAD_PROOF.to_vec() } else { vec![5, 5, 5] }),
+                    seal_proof_type: ni,
+                    aggregate_proof_type: fvm_shared::sector::RegisteredAggregateProof::SnarkPackV2,
+                    proving_deadline: (cur + 3 + (*deadline as u64 % 40)) % 48,
+                    require_activation_success: false,
+                };
+                let r = self.send(worker, id, mi::Method::ProveCommitSectorsNI as u64, &zero, &p)?;
+                self.stats.say(|| format!("op {i}: ProveCommitSectorsNI miner {id} {count} sectors from {first} proof kind {k} (miner kind {own_kind}) -> {} {}", r.code.value(), r.message));
+                if r.ok() {
+                    self.miners[mi_].next_sector = first + count;
+                    self.stats.label("proven");
+                    self.stats.label("committed_non_interactively");
+                    if k != own_kind {
+                        self.stats.label("ni_commit_with_foreign_sector_size_accepted");
+                    }
                 }
             }
             Op::BadPostChangeDispute { m, into, picks, verified, extend_instead, rel } => {
@@ -1434,6 +1477,7 @@ pub fn op_strategy_w(bulk: u32, long: u32, dispute: u32, verified: u32, benef: u
     let eol = if long >= 6 { 6 } else if verified >= 20 { 3 } else { 1 };
     prop_oneof![
         2000 => op_strategy(),
+        25 => (0u8..4, 0u8..3, prop_oneof![3 => Just(None), 1 => (0u8..3).prop_map(Some)], 0u16..300, 0u8..40, prop_oneof![12 => Just(false), 1 => Just(true)]).prop_map(|(m, n, kind, life_days, deadline, bad_proof)| Op::CommitNI { m, n, kind, life_days, deadline, bad_proof }),
         15 => (0u8..4, proptest::collection::vec(any::<u16>(), 1..5), prop_oneof![3 => Just(true), 1 => Just(false)], prop_oneof![12 => Just(false), 1 => Just(true)]).prop_map(|(m, picks, verified, bad_proof)| Op::ReplicaUpdate { m, picks, verified, bad_proof }),
         snap => (0u8..4, 0u8..4, 0u8..4, proptest::collection::vec(any::<u16>(), 2..5), prop_oneof![3 => Just(true), 1 => Just(false)], any::<bool>()).prop_map(|(m, n, posts, picks, verified, withdraw)| Op::SnapCycle { m, n, posts, picks, verified, withdraw }),
         bulk * 5 => (0u8..4, any::<u16>(), 0u8..3, 0u16..300, any::<bool>()).prop_map(|(m, pick, per_partition, add_days, common)| Op::ExtendMany { m, pick, per_partition, add_days, common }),
